@@ -247,10 +247,10 @@ def main(tier, seed):
     cov['samples'] = [obs[0][1], obs[-1][1]]
     spec_set = set(failing['spec'])
     for i in failing['spec']:
-        dec.report(dict(kind='store-not-intact-or-clobbered', **obs[i][1]))
+        dec.report(dict(obs[i][1], kind='store-not-intact-or-clobbered'))
     for i in failing['corr']:
         if i not in spec_set:
-            dec.report(dict(kind='model-differs', theorem='correspondence c15_corr', **obs[i][1]), no_input=True)
+            dec.report(dict(obs[i][1], kind='model-differs', theorem='correspondence c15_corr'), no_input=True)
     for name, out in broken:
         dec.report(dict(kind='case-file-broken', file=name, detail=out), no_input=True)
     run.keep = bool(dec.violations)
